@@ -1663,6 +1663,14 @@ def assemble(repo, unit, cfg, opts=None):
         if path in table and table[path].kind in ("const", "static", "type") and path not in wanted:
             wanted[path] = None
     missing = [p for p in wanted if p not in table]
+    # a contracted FUNCTION that no longer exists (renamed, merged into another one): the rest of the unit is still
+    # assembled - its callers will not resolve it and become suspects - and the function itself is recorded as lost
+    gone = [p for p in missing if wanted[p] is not None]
+    for p in gone:
+        LOST.append((p, "assumption lost: contracted function %s no longer exists in the source (renamed or replaced)" % p))
+        del wanted[p]
+        ov.fns.pop(p, None)
+    missing = [p for p in missing if p not in gone]
     if missing:
         raise ExtractError("lost anchor: item(s) not found in source under config %s: %s"
                            % (cfg.name, ", ".join(missing)))
